@@ -738,3 +738,26 @@ func (iv *Intervals) inContext(call *ssa.Call, at ssa.Instruction) []Interval {
 	iv.params, iv.inprog, iv.guards = savedP, savedIn, savedG
 	return out
 }
+
+// EvalWith evaluates the integer results of fn over its success returns with
+// the given parameter bindings (others unconstrained).
+func (iv *Intervals) EvalWith(fn *ssa.Function, bind map[*ssa.Parameter]Interval) []Interval {
+	savedP, savedIn := iv.params, iv.inprog
+	iv.params, iv.inprog = bind, map[ssa.Value]bool{}
+	defer func() { iv.params, iv.inprog = savedP, savedIn }()
+	n := fn.Signature.Results().Len()
+	out := make([]Interval, n)
+	for i := range out {
+		out[i] = Interval{1, 0}
+	}
+	for _, r := range SuccessReturns(fn) {
+		for i, res := range r.Results {
+			if _, ok := res.Type().Underlying().(*types.Basic); !ok {
+				out[i] = Top()
+				continue
+			}
+			out[i] = out[i].Join(iv.At(res, r))
+		}
+	}
+	return out
+}
